@@ -25,6 +25,8 @@ def _handlers(P, cg):
 
 
 def run(ctx):
+    # "only ever touches the lease row of the address it assigns": what else a write can delete is the schema's business (C01)
+    ctx.include("C01", rules=("R7", "R1"))
     P = ctx.P
     cg = callgraph(P)
     M = PoolModel(P, cg)
@@ -182,6 +184,18 @@ def _r3(ctx, body, writer):
                   "a REQUEST naming another server must be rejected before the pool is touched: every path to the allocation "
                   "must take `no server-id option` or `server-id is one of ours` (%d such edge(s) found)" % len(pass_edges))
     ctx.floor("R3", "allocation calls in the REQUEST handler", len(allocs), 1)
+    # the value tested is the option as the client sent it: the accessor hands out option 54 untouched (an accessor that treats some
+    # values as "absent" makes a REQUEST naming that server look like one naming none)
+    acc = [b for b in P.bodies.values() if b.id.endswith("DhcpOptions::get_serverid")]
+    for ab in acc:
+        ctx.saw(ab)
+        Ta = terms(P, ab)
+        rets = [norm(Ta.rvalue(st["rv"], bb, idx)) for bb, idx, st in ab.stmts() if st["p"] == (0,) and "rv" in st]
+        rets += [norm(("call", callee_name(tm), tuple(Ta.call_args(bb)), bb)) for bb, tm in ab.calls() if tuple(tm["dest"]) == (0,)]
+        good = bool(rets) and all(r[0] == "call" and str(r[1]).endswith("::get_option") and len(r[2]) == 2 and is_const(norm(r[2][1]), 54) for r in rets)
+        ctx.check(good, "R3", "server-id-accessor-returns-option-54-untouched", ctx.where(ab),
+                  "get_serverid() must be get_option(54) itself (is %s)" % [show(r)[:100] for r in rets])
+    ctx.floor("R3", "server-id accessor", len(acc), 1)
 
 
 def _handler_rules(ctx, body, writer, is_request):
